@@ -1,6 +1,6 @@
 (* Dispatch table of the model entry points used by the correspondence check. *)
 From Coq Require Import ZArith NArith List String.
-From Cfi Require Import Py.PyStr Py.PyCodec.
+From Cfi Require Import Py.PyStr Py.PyCodec Py.PyRe.
 From Cfi Require Import Glue.Sx Model.Version Model.Dll Model.DllRun Py.PrimEntry Model.LineRun Model.ReaderRun Model.IO Model.View Model.World.
 Import ListNotations.
 Open Scope string_scope.
@@ -20,7 +20,7 @@ Definition entries : list (string * (sx -> sx)) :=
   [ ("C19", run_C19);
     ("C19seq", fun a => L (map run_C19 (sxL a)));
     ("C07", run_C07); ("C08", run_C08); ("C15", run_C15);
-    ("PRIM", run_prim); ("CODEC", run_codec); ("C16", run_C16);
+    ("PRIM", run_prim); ("RE", run_RE); ("CODEC", run_codec); ("C16", run_C16);
     ("FIELD", run_field); ("LINE", run_line);
     ("REGFILE", run_regfile); ("REGSTREAM", run_regstream); ("BLOCKFILE", run_blockfile); ("SECTIONFILE", run_sectionfile);
     ("C17", run_C17); ("C20", run_C20); ("C14", run_C14) ].
